@@ -28,11 +28,11 @@ class Component(BaseObject):
     representationFactories = {
         "defcon.component.bounds" : dict(
             factory=componentBoundsRepresentationFactory,
-            destructiveNotifications=("Component.TransformationChanged", "Component.BaseGlyphChanged")
+            destructiveNotifications=("Component.TransformationChanged", "Component.BaseGlyphChanged", "Component.BaseGlyphDataChanged")
         ),
         "defcon.component.controlPointBounds" : dict(
             factory=componentPointBoundsRepresentationFactory,
-            destructiveNotifications=("Component.TransformationChanged", "Component.BaseGlyphChanged")
+            destructiveNotifications=("Component.TransformationChanged", "Component.BaseGlyphChanged", "Component.BaseGlyphDataChanged")
         )
     }
 
@@ -355,6 +355,7 @@ class Component(BaseObject):
         notBaseGlyph = layer[newName]
         self._endBaseGlyphObservations(notBaseGlyph)
         self._beginLayerObservations()
+        self.postNotification("Component.BaseGlyphDataChanged")
 
     def layerGlyphNameChangedNotificationCallback(self, notification):
         newName = notification.data["newValue"]
@@ -363,6 +364,7 @@ class Component(BaseObject):
             return
         self._endLayerObservations()
         self._beginBaseGlyphObservations()
+        self.postNotification("Component.BaseGlyphDataChanged")
 
     def layerGlyphWillBeDeletedNotificationCallback(self, notification):
         name = notification.data["name"]
@@ -370,6 +372,7 @@ class Component(BaseObject):
             return
         self._endBaseGlyphObservations()
         self._beginLayerObservations()
+        self.postNotification("Component.BaseGlyphDataChanged")
 
     def layerGlyphAddedNotificationCallback(self, notification):
         name = notification.data["name"]
@@ -377,6 +380,7 @@ class Component(BaseObject):
             return
         self._endLayerObservations()
         self._beginBaseGlyphObservations()
+        self.postNotification("Component.BaseGlyphDataChanged")
 
     def baseGlyphDataChangedNotificationCallback(self, notification):
         self.postNotification("Component.BaseGlyphDataChanged")
